@@ -179,6 +179,7 @@ Section Desc.
       MCell m' h' ->
       attr_at h' m' "metabolites" = Some (Ref dlm) -> attr_at h' m' "genes" = Some (Ref dlg) ->
       attr_at h' m' "reactions" = Some (Ref dlr) -> attr_at h' m' "groups" = Some (Ref dlgr) ->
+      (n <= dlm /\ n <= dlg /\ n <= dlr /\ n <= dlgr) ->
       (attr_at h' m' "_contexts" = Some (Ref cx) /\ get h' cx = Some (mkCell KList []) /\ n <= cx) ->
       (forall s, In s ("_solver" :: map fst (ct_model_explicit T)) ->
                  exists v v', attr mc s = Some v /\ attr_at h' m' s = Some v' /\ DIso h0 v (PD n W (List.length h')) h' v') ->
